@@ -46,7 +46,13 @@ pub struct Cfg {
 #[derive(Serialize, Deserialize, Clone, Debug, PartialEq)]
 #[serde(rename_all = "snake_case")]
 pub enum Op {
-    Provide { amounts: [u128; 3], slippage: Option<String> },
+    Provide {
+        amounts: [u128; 3],
+        slippage: Option<String>,
+        /// permutation (0..6) of the order in which the assets are listed in the message
+        #[serde(default)]
+        perm: u8,
+    },
     Withdraw { lp: u128 },
     Swap { from: usize, to: usize, amount: u128, max_spread: Option<String>, belief: Option<String> },
     Collect,
@@ -91,6 +97,7 @@ pub struct Pool3 {
     pub fee18: [u128; 3],
     pub blocks: u64,
     pub model: Model,
+    pub perm_next: std::cell::Cell<u8>,
 }
 
 #[derive(Clone, Debug)]
@@ -261,7 +268,11 @@ impl Pool3 {
         msgs.push(wasm_exec(
             &self.trio,
             &trio::ExecuteMsg::ProvideLiquidity {
-                assets: [self.asset(0, amounts[0]), self.asset(1, amounts[1]), self.asset(2, amounts[2])],
+                assets: {
+                    const P: [[usize; 3]; 6] = [[0, 1, 2], [0, 2, 1], [1, 0, 2], [1, 2, 0], [2, 0, 1], [2, 1, 0]];
+                    let o = P[(self.perm_next.get() % 6) as usize];
+                    [self.asset(o[0], amounts[o[0]]), self.asset(o[1], amounts[o[1]]), self.asset(o[2], amounts[o[2]])]
+                },
                 slippage_tolerance: slippage.map(|s| Decimal::from_str(s).unwrap()),
                 receiver: None,
             },
@@ -439,6 +450,7 @@ impl Scenario for Pool3 {
             lp: asset_id(&ti.liquidity_token),
             fee18: [dec_atomics(&cfg.fees[0]), dec_atomics(&cfg.fees[1]), dec_atomics(&cfg.fees[2])],
             blocks: 0,
+            perm_next: std::cell::Cell::new(0),
             model: Model { amp0: cfg.amp, amp1: cfg.amp, h0: h, h1: h, ..Default::default() },
         }
     }
@@ -462,7 +474,7 @@ impl Scenario for Pool3 {
             let base = rng.range128(10_000, (bal[0].min(bal[1]).min(bal[2]) / 4).max(10_001));
             let sk = |rng: &mut Rng| *rng.pick(&[1u128, 1, 1, 2, 3, 10]);
             let amounts = [(base / sk(rng)).max(10_000), (base / sk(rng)).max(10_000), (base / sk(rng)).max(10_000)];
-            return Some(Step { actor, op: Op::Provide { amounts, slippage: None }, adv: 0, fault: Fault::None });
+            return Some(Step { actor, op: Op::Provide { amounts, slippage: None, perm: 0 }, adv: 0, fault: Fault::None });
         }
         let mut fault = Fault::None;
         if self.cfg.faults && rng.chance(1, 10) {
@@ -479,7 +491,7 @@ impl Scenario for Pool3 {
                     _ => [d0, rng.edge_amount(bal[1] / 2).max(1), rng.edge_amount(bal[2] / 2).max(1)],
                 };
                 let slippage = if rng.chance(1, 4) { Some(atomics_to_dec(*rng.pick(&[0u128, E18 / 100, E18 / 2, E18, E18 + 1]))) } else { None };
-                Op::Provide { amounts, slippage }
+                Op::Provide { amounts, slippage, perm: if rng.chance(1, 2) { 0 } else { rng.below(6) as u8 } }
             }
             1 if rng.chance(1, 8) => Op::WithdrawDirect { coin: rng.idx(4), amount: *rng.pick(&[1u128, 1000, 3000, 3001, 999_999]) },
             1 => Op::Withdraw { lp: if lp == 0 { rng.range128(0, 5) } else { match rng.below(4) { 0 => lp, 1 => 1, _ => rng.edge_amount(lp) } } },
@@ -563,7 +575,7 @@ impl Scenario for Pool3 {
             Op::Swap { from, to, amount, max_spread, belief } => for a in shr(*amount) { out.push(Step { op: Op::Swap { from: *from, to: *to, amount: a, max_spread: max_spread.clone(), belief: belief.clone() }, ..step.clone() }); },
             Op::RoundTrip { from, to, amount } => for a in shr(*amount) { out.push(Step { op: Op::RoundTrip { from: *from, to: *to, amount: a }, ..step.clone() }); },
             Op::Withdraw { lp } => for a in shr(*lp) { out.push(Step { op: Op::Withdraw { lp: a }, ..step.clone() }); },
-            Op::Provide { amounts, slippage } => for i in 0..3 { for a in shr(amounts[i]) { let mut m = *amounts; m[i] = a; out.push(Step { op: Op::Provide { amounts: m, slippage: slippage.clone() }, ..step.clone() }); } },
+            Op::Provide { amounts, slippage, perm } => for i in 0..3 { for a in shr(amounts[i]) { let mut m = *amounts; m[i] = a; out.push(Step { op: Op::Provide { amounts: m, slippage: slippage.clone(), perm: *perm }, ..step.clone() }); } },
             Op::DepositWithdraw { amounts } => for i in 0..3 { for a in shr(amounts[i]) { let mut m = *amounts; m[i] = a; out.push(Step { op: Op::DepositWithdraw { amounts: m }, ..step.clone() }); } },
             _ => {}
         }
@@ -740,7 +752,8 @@ fn do_swap(s: &mut Pool3, ctx: &mut Ctx, actor: usize, from: usize, to: usize, a
             let dlo = if d > U1024::from(2u32) { d - U1024::from(2u32) } else { U1024::ZERO };
             let y1 = y_star3(dlo, x_new, before.reserves[other], a, before.reserves[to].saturating_add(1));
             let tol = (if y0 > y1 { y0 - y1 } else { U1024::ZERO }) + U1024::from(2u32);
-            let reserve_after = w(before.reserves[to].saturating_sub(gross));
+            // both what was quoted and what the pool really reports afterwards must respect the curve
+            let reserve_after = w(before.reserves[to].saturating_sub(gross).min(after.reserves[to]));
             // not more than dust below the curve; and, while the pool is not extremely imbalanced
             // (where the integer solver loses precision in the pool's favour), not far above it
             // either: a wrong effective amplification shows up as a deviation in either direction
@@ -948,8 +961,11 @@ pub fn apply(s: &mut Pool3, step: &Step, ctx: &mut Ctx) {
                 }
             }
         }
-        Op::Provide { amounts, slippage } => {
+        Op::Provide { amounts, slippage, perm } => {
+            s.perm_next.set(*perm);
+            if *perm % 6 != 0 { ctx.probe("provide_assets_listed_in_other_order"); }
             do_provide(s, ctx, actor, *amounts, slippage, step.fault, "provide");
+            s.perm_next.set(0);
         }
         Op::DepositWithdraw { amounts } => {
             let lp0 = balance(&s.app, who, &token(&s.lp));
